@@ -41,6 +41,37 @@ _HO_NOTE = (" Call-out discipline for K1: wherever the real code subscribes to a
             "on_next from an arbitrary state, then run from an arbitrary later state in which that member is live.")
 
 CHECKS_K1 = {
+    "C18": {
+        "text": "The window operators under K1 / K1-T contracts with their own subjects used through the Subject contract (C20; calls on a "
+                "window's subject are events of its channel, compared with the spec's in order: receiver, kind, payload) and the windows "
+                "handed downstream as add_ref(subject, the subscription's ref count). window_with_count_: the real queue IS the spec's "
+                "sequence of open windows and n[0] its element count; the spec machine keeps ghost counters with the closed forms "
+                "opened = n // skip + 1, closed = 0 if n < count else (n - count) // skip + 1 as ITS state invariant (proved established "
+                "and preserved by every step), the drain loops of on_error / on_completed are cut at loop invariants (sent + q = old q), "
+                "and a K8 lemma proves that window k is open at element n iff k*skip <= n <= k*skip + count - 1 - the property's wording. "
+                "window_ (boundaries, two sources), window_when_ (the closing observables are a handler family behind take(1), created "
+                "at subscription and by each other; closing_mapper may raise), window_with_time_ (one timer chain; the pending timer is "
+                "due at min(next opening, next closing), windows open at t0 + k*timeshift and close at t0 + k*timeshift + timespan - "
+                "closed forms over ghost counters as the spec's state invariant; the real next_shift / next_span / total_time cells and "
+                "the flags in the pending action's closure are coupled to it; timers re-arm themselves by the same code), "
+                "window_with_time_or_count_ (one window at a time, closed by its count-th element or its timer; window_id invalidates "
+                "stale timers; the timer's own invariant _id == k is proved when it is set). Every element goes to exactly the open "
+                "windows in order; all open windows end with the source's terminal kind; the invariant holds at every call-out "
+                "(re-entrancy discipline). buffer_, buffer_when_, buffer_toggle_, buffer_with_count_, buffer_with_time_, "
+                "buffer_with_time_or_count_ are proved to be the corresponding window operator with the same arguments followed by "
+                "flat_map(to_list) (+ the non-empty filter of the count form): each buffer is the contents of its window (to_list / "
+                "flat_map contracts: C06 / C11). window_toggle_ is proved to be group_join over the openings (source joined, windows "
+                "live as long as closing_mapper(opening), elements retained for empty()); group_join itself is NOT under contract: the "
+                "toggle rule is decided by a bounded stand-in (winrun.py grid) - which reports the listed known finding: the source's "
+                "completion neither ends the open toggle windows nor the output.",
+        "note": _K1_NOTE + _HO_NOTE + " A-time / A-time-step as in C16 (timedelta(seconds=x) is x ticks). The order between a notification sent to a "
+                "window and an element handed to the downstream observer inside one step is not compared (two channels). window_with_time: "
+                "the machine has no terminated state (its timer chain goes on until the subscription is released, unobservably - C01/C02). "
+                "Requires timespan >= 1 and timeshift >= 1. A raising closing_mapper of window_when ends the output but leaves the window just "
+                "opened without a terminal (real code and spec agree; noted in DESIGN §9). Ties at equal virtual instants are the "
+                "scheduler's (C28). join / group_join: not under contract (bounded stand-in for the toggle rule only).",
+        "technique": "K1 / K1-T handler refinement with subject channels, sequences of open windows, loop invariants, timer and handler families; spec-state invariants with div/mod closed forms + K8 lemma; wiring contracts; bounded stand-in for toggle; SMT",
+    },
     "C19": {
         "text": "group_by_until_ under a K1 contract over an ABSTRACT MAP from keys to the subjects of the live groups (a z3 array plus "
                 "the sequence of its values in iteration order; the real OrderedDict operations get / [] / []= / del / values() are "
